@@ -22,7 +22,7 @@ MIN_DECIDING = {"dr_runs_judged": 100, "previous_path_checked": 150, "followup_c
 
 
 def budget(tier):
-    return {"cases": 1800, "seconds": 55} if tier == "quick" else {"cases": 150000, "seconds": 600}
+    return {"cases": 1300, "seconds": 55} if tier == "quick" else {"cases": 150000, "seconds": 600}
 
 
 def _apply_renames(rng, root, files, dirs, n, tag):
@@ -51,6 +51,9 @@ def _apply_renames(rng, root, files, dirs, n, tag):
         if new in taken or os.path.exists(os.path.join(root, new)):
             continue
         os.rename(os.path.join(root, old), os.path.join(root, new))
+        if rng.random() < 0.3:
+            os.utime(os.path.join(root, new))  # e.g. a move by copy + delete: same bytes, modification time is "now"
+            classes.add("touched")
         taken.add(new)
         ren[old] = new
         classes.add(k)
